@@ -89,6 +89,30 @@ pub fn gen_object(r: &mut Rng, depth: u32, width: usize, min: usize) -> Value {
     Value::Object(m)
 }
 
+/// adds a member with a reserved name (`_sd`, `...`; `_sd_alg` at top level) to a random object of the tree
+pub fn plant_reserved_name(r: &mut Rng, claims: &mut Value) {
+    let mut objects: Vec<TPath> = vec![vec![]];
+    objects.extend(all_nodes(claims).into_iter().filter(|p| resolve(claims, p).map_or(false, |v| v.is_object())));
+    let at = r.pick(&objects).clone();
+    let name = if at.is_empty() { *r.pick(&["_sd", "...", "_sd_alg"]) } else { *r.pick(&["_sd", "..."]) };
+    let value = match r.below(5) {
+        0 => json!(["not-a-digest"]),
+        1 => json!([]),
+        2 => json!("text"),
+        3 => json!(5),
+        _ => json!({"a": 1}),
+    };
+    let mut cur = claims;
+    for t in &at {
+        cur = match (t, cur) {
+            (Tok::Key(k), Value::Object(m)) => m.get_mut(k).unwrap(),
+            (Tok::Idx(i), Value::Array(a)) => a.get_mut(*i).unwrap(),
+            _ => unreachable!(),
+        };
+    }
+    cur.as_object_mut().unwrap().insert(name.to_string(), value);
+}
+
 /// every non-root node, descendants before ancestors (post-order)
 pub fn all_nodes(v: &Value) -> Vec<TPath> {
     fn rec(v: &Value, cur: &mut TPath, out: &mut Vec<TPath>) {
